@@ -100,6 +100,81 @@ func c10ValidName(s string, fqdn bool) bool {
 	return true
 }
 
+// c10Uint16 reads a decimal uint16 the way the documentation writes them.
+func c10Uint16(s string) (uint16, bool) {
+	if s == "" || len(s) > 8 {
+		return 0, false
+	}
+	n := 0
+	for _, ch := range s {
+		if ch < '0' || ch > '9' {
+			return 0, false
+		}
+		n = n*10 + int(ch-'0')
+	}
+	return uint16(n), n <= 65535
+}
+
+// c10RoundTrip compares the parsed value with the written one for the full
+// form RCODE;TYPE;VALUE (independent reading of the documented field syntax).
+func c10RoundTrip(value string, d *rules.DNSRewrite) string {
+	parts := strings.SplitN(value, ";", 3)
+	if len(parts) != 3 || d.RRType == 0 {
+		return ""
+	}
+	val := parts[2]
+	switch v := d.Value.(type) {
+	case *rules.DNSMX:
+		f := strings.SplitN(val, " ", 2)
+		if len(f) != 2 {
+			return "mx-field-count"
+		}
+		if n, ok := c10Uint16(f[0]); !ok || n != v.Preference || f[1] != v.Exchange {
+			return "mx-fields"
+		}
+	case *rules.DNSSRV:
+		f := strings.Split(val, " ")
+		if len(f) < 4 {
+			return "srv-field-count"
+		}
+		p, ok1 := c10Uint16(f[0])
+		w, ok2 := c10Uint16(f[1])
+		po, ok3 := c10Uint16(f[2])
+		if !ok1 || !ok2 || !ok3 || p != v.Priority || w != v.Weight || po != v.Port || f[3] != v.Target {
+			return "srv-fields"
+		}
+	case *rules.DNSSVCB:
+		f := strings.Split(val, " ")
+		if len(f) < 2 {
+			return "svcb-field-count"
+		}
+		if p, ok := c10Uint16(f[0]); !ok || p != v.Priority || f[1] != v.Target {
+			return "svcb-fields"
+		}
+		if len(v.Params) > len(f)-2 {
+			return "svcb-params"
+		}
+		for _, kv := range f[2:] {
+			k, pv, found := strings.Cut(kv, "=")
+			if !found || v.Params[k] == "" && pv != "" {
+				return "svcb-params"
+			}
+		}
+	case netip.Addr:
+		if a, err := netip.ParseAddr(val); err != nil || a != v {
+			return "address"
+		}
+	case string:
+		if d.RRType == dns.TypeTXT && v != val {
+			return "txt"
+		}
+		if d.RRType == dns.TypePTR && v != val && v != val+"." {
+			return "ptr"
+		}
+	}
+	return ""
+}
+
 // c10Consume is what a consumer following the RRValue documentation does.
 func c10Consume(d *rules.DNSRewrite) (s string) {
 	switch d.RRType {
@@ -155,6 +230,9 @@ func checkC10(c c10Case, rec *Rec) *Violation {
 	if !reflect.DeepEqual(d, r2.DNSRewrite) {
 		return viol(id, "C10:nondeterministic", "parsing %q twice gives %+v and %+v", txt, *d, *r2.DNSRewrite)
 	}
+	if s := c10RoundTrip(c.Value, d); s != "" {
+		return viol(id, "C10:value-differs-from-text:"+s, "value %q accepted with DNSRewrite %+v (Value %+v): %s", c.Value, *d, d.Value, s)
+	}
 	_ = c10Consume(d) // panics (=> violation) if the dynamic type is not the documented one
 	rec.Label("accepted:" + dns.TypeToString[d.RRType])
 	rec.NonTrivial("acc|"+c.Value, map[string]any{"value": c.Value, "rcode": d.RCode, "rrtype": d.RRType, "new_cname": d.NewCNAME})
@@ -176,7 +254,7 @@ func genC10(t *rapid.T) c10Case {
 		return c10Case{Value: pick(t, "short", c10Shorts)}
 	case 2:
 		// numeric bounds around uint16 for MX/SRV/SVCB fields
-		n := pick(t, "num", []string{"-1", "0", "1", "65535", "65536", "4294967296", "1e20", "0x10", " 5", "5 ", "٣"})
+		n := pick(t, "num", []string{"-1", "0", "1", "65535", "65536", "4294967296", "1e20", "0x10", " 5", "5 ", "٣", "010", "08", "0b101", "0o17", "1_000", "+5", "00"})
 		switch rapid.IntRange(0, 2).Draw(t, "which") {
 		case 0:
 			return c10Case{Value: "NOERROR;MX;" + n + " m.x"}
